@@ -36,6 +36,12 @@ CHECKS = {
  "C18": dict(cat="model_checking", ref="§5/C18",
    text="Engine.tla classifies every request (syntax / validation / operation selection / variables / executed) and TLC checks that error classes answer data null and run nothing; the whole operation-selection x variables matrix is replayed under 3 error coercers x 3 contexts (coercer awaited once per error, its return value is the entry). Main part: mutated and random texts (str/bytes, invalid UTF-8, BOM, control characters, deep nesting, block strings) seeded from TLC-generated documents; each response is one trace judged by TLC (Envelope: dict with data, errors only when non-empty, string messages, path list-or-null, locations positive and inside the text, extensions only when set, JSON-serialisable; refused texts run nothing).",
    technique="TLA+ envelope invariant evaluated by TLC on traces recorded from the engine + TLC-enumerated request matrix replay"),
+ "C04": dict(cat="model_checking", ref="§5/C04",
+   text="InputCoercion.tla transcribes CoerceVariableValues and input coercion (lists with single-value wrapping at every level, input objects with defaults / required / unknown fields, recursive input objects, enums, scalar leaves through Scalars.tla). TLC checks R1_Vars over 24k cells (66 declared types x default? x absent / candidate JSON values one mutation away from well-typed at every position): undeclared variables ignored, absent+default = default, explicit null kept, refusal iff a rule fails, type soundness, wrapping; plus a two-variable configuration (no masking). Every cell x 2 representatives is executed: refusal => data null, no resolver call, an error located in the offending variable's definition; otherwise the echo resolver sees exactly the predicted dictionary.",
+   technique="TLA+ input coercion spec (InputCoercion.tla) + TLC type-directed cell enumeration + replay through echo resolvers"),
+ "C05": dict(cat="model_checking", ref="§5/C05",
+   text="Same specification, CoerceArgumentValues and literal coercion (valueFromAST incl. variables inside list/object literals). TLC checks R1_Ways for every (type, value): literal, variable, variable default, schema default, variable-in-list and variable-in-object spellings yield the same argument dictionary (or all fail), delivered values are well-typed. Every cell is executed in all applicable spellings at field AND directive argument positions, plus omitted / null literal / null variable / absent variable per type, plus ill-typed variables nested in literals (never delivered).",
+   technique="TLA+ argument/literal coercion spec + TLC-checked equivalence of spellings + replay of every spelling through echo resolvers and directive hooks"),
 }
 NOT_YET = {}
 
